@@ -13,6 +13,9 @@
 (*   ["lh", i], ["th", j]  as "lp", "lt" while the high half of a value is  *)
 (*              still owed to the caller (between the two next_u32 of a     *)
 (*              pair)                                                       *)
+(*   ["tp", i], ["tf", i]  pool := e_i; test_timer over a healthy clock     *)
+(*              (returns Ok) resp. over a clock with a zero reading at the  *)
+(*              fifth probe (gives up early)                                *)
 (*   ["nx", i]  pool := e_i; one whole collection (next_u64: priming       *)
 (*              measurement, `rounds` accepted measurements with stuck ones *)
 (*              in between, stir) over the same readings every time: "two  *)
@@ -37,13 +40,13 @@ Ev == Rec[l]
 Has(r, f) == f \in DOMAIN r
 
 Next == /\ l <= Len(Rec) /\ l' = l + 1
-        /\ IF Has(Ev, "tag") /\ Has(Ev, "obs") /\ Ev.e \in {"timer_stats", "stir", "next_u64"} /\ ~Has(Ev, "panic")
+        /\ IF Has(Ev, "tag") /\ Has(Ev, "obs") /\ Ev.e \in {"timer_stats", "stir", "next_u64", "test_timer"} /\ ~Has(Ev, "panic")
            THEN imgs' = (Ev.tag :> Ev.obs.pool) @@ imgs ELSE UNCHANGED imgs
 Init == l = 1 /\ imgs = <<>>
 Spec == Init /\ [][Next]_vars
 Done == l = Len(Rec) + 1
 
-Kinds == {"lp", "lt", "st", "lv", "tv", "nx", "lh", "th"}
+Kinds == {"lp", "lt", "st", "lv", "tv", "nx", "lh", "th", "tp", "tf"}
 Complete(kind) == \A i \in -1..63 : <<kind, i>> \in DOMAIN imgs
 Col(kind, i) == VXor(imgs[<<kind, i>>], imgs[<<kind, -1>>])          \* linear part: f(e_i) xor f(0)
 AffTags(kind) == {t \in DOMAIN imgs : Len(t) = 4 /\ t[1] = "aff" /\ t[2] = kind /\ t[4] = "a"}
@@ -73,7 +76,7 @@ Result(kind) == IF ~Complete(kind) THEN <<kind, "incomplete", 0, VZero(4), 0>>
                 ELSE LET e == Elim(kind) IN <<kind, "affine", e[1], e[2], Cardinality(AffTags(kind))>>
 Bijective ==
   Done => LET r == [k \in Kinds |-> Result(k)] IN
-          /\ PrintT(<<"RESULT", r["lp"], r["lt"], r["st"], r["lv"], r["tv"], r["nx"], r["lh"], r["th"], SpecRotRank>>)
+          /\ PrintT(<<"RESULT", r["lp"], r["lt"], r["st"], r["lv"], r["tv"], r["nx"], r["lh"], r["th"], r["tp"], r["tf"], SpecRotRank>>)
           /\ \A k \in Kinds : r[k][2] = "affine" => r[k][3] = 64
           /\ SpecRotRank = 64
 =============================================================================
